@@ -394,7 +394,7 @@ def jobs(tier):
     # text clause, bounded: fully symbolic ASCII strings and mutations of valid expressions
     TR = {"assumed_time_zone": (0, 0), "allow_truncated": True}
     for kind in ("timepoint", "duration", "recurrence"):
-        top = {"timepoint": 6, "duration": 7, "recurrence": 7}[kind] + (1 if th else 0)
+        top = {"timepoint": 6, "duration": 7, "recurrence": 7}[kind]
         for n in range(1, top + 1):
             J.append(("job_garbage", dict(kind=kind, template=None, npos=n)))
             if kind == "timepoint":
@@ -420,7 +420,7 @@ INFO = {
                    "expressions) either return an object or raise an error derived from ValueError, and the exploration terminates.",
     "bounds": {"quick": {"years": "-1 000 000..999 999 (date-only jobs); 1600..2399 for the jobs that add time and zone fields",
                          "modes": "date notations in all 4 modes; conflicts and time/zone combinations in gregorian"},
-               "thorough": {"modes": "everything in all 4 modes"}},
+               "thorough": {"modes": "everything in all 4 modes", "text": "mutation windows of 1-4 characters"}},
     "outside": ["arbitrary text beyond the stated bound: only fully symbolic printable-ASCII strings of length <= 6 (time points, also with truncation enabled) / <= 7 (durations, recurrences) and 18 valid "
                 "expressions with every window of 1-3 consecutive characters replaced by symbolic printable-ASCII characters are decided; "
                 "non-ASCII characters (e.g. non-ASCII digits) and longer splices are outside",
